@@ -164,7 +164,95 @@ def c15_jobs(tier):
     return jobs
 
 
+def c17_jobs(tier):
+    q = tier == 'quick'
+    jobs = []
+
+    def H(test, par, par2, tr, a, b, n, qflip=0, z=0, **kw):
+        jobs.append(J('root', 'H_C17', [test, par, par2, tr, a, b, n, qflip, z], **kw))
+    nm = 12 if q else 24
+    # ---- complement
+    for n in range(1, nm + 1):
+        H(0, 0, 0, 0, 0, 0, n, qflip=1)
+    for n in range(2, nm + 1):
+        H(4, 0, 0, 0, 0, 0, n)
+    for m in (2, 3, 5):
+        for n in (m, 2 * m + 1, 12, 13) if q else range(m, nm + 1):
+            H(1, m, m, 0, 0, 0, n)
+    for m in (2, 4, 8):
+        for n in (8, 12, 16, 17) if q else range(8, nm + 1):
+            H(2, m, m, 0, 0, 0, n)
+    for m in (2, 3, 5):
+        for n in (5, 8, 11) if q else range(5, nm + 1):
+            H(3, m, m, 0, 0, 0, n)
+            H(3, m, m, 1, 0, 0, n)
+    for m in (2, 5):
+        for n in (4, 7, 10) if q else range(2, 17):
+            H(10, m, m, 0, 0, 0, n)
+            H(10, m, m, 1, 0, 0, n)
+    for k in (3, 7):
+        for n in (max(8, k + 2), 12, 16) if q else range(max(8, k + 1), nm + 1):
+            H(7, k, k, 0, 0, 0, n)
+            H(7, k, k, 1, 0, 0, n)
+    for d in (1, 2, 8):
+        for n in (16, 19) if q else range(16, nm + 1):
+            H(8, d, d, 0, 0, 0, n)
+            H(8, d, d, 1, 0, 0, n)
+    for n in (128, 131) if q else (128, 129, 131, 136):
+        H(6, 1, 0, 0, 0, 0, n)
+        H(6, 0, 1, 0, 0, 0, n)
+    cn = 8 if q else 14
+    for n in range(2, cn + 1):
+        for z in range(1, n + 1):
+            H(9, 1, 1, 0, 0, 0, n, z=z, pin_consts=True)      # complement, forward
+            H(9, 0, 0, 0, 0, 0, n, z=z, pin_consts=True)      # complement, backward
+            H(9, 1, 0, 1, 0, 0, n, z=z, pin_consts=True)      # forward on x == backward on reverse(x)
+    # ---- reversal of the counting tests
+    for n in range(1, nm + 1):
+        H(0, 0, 0, 1, 0, 0, n)
+    for n in range(2, nm + 1):
+        H(4, 0, 0, 1, 0, 0, n)
+    # ---- rotation
+    for (t, m) in ((3, 3), (3, 5), (10, 2), (10, 5)):
+        for n in (8, 11) if q else (8, 11, 16):
+            for a in range(1, n):
+                H(t, m, m, 2, a, 0, n)
+    # ---- whole-block swaps and discarded-tail changes
+    for m in (3, 4):
+        n = 3 * m + 2
+        for a in (0, 1):
+            H(1, m, m, 3, a, m, n)
+            H(2, 4, 4, 3, a, 4, 14) if m == 4 else None
+            H(12, m, m, 3, a, m, n)
+        for a in range(3 * m, n):
+            H(1, m, m, 4, a, 0, n)
+            H(12, m, m, 4, a, 0, n)
+    H(2, 4, 4, 4, 12, 0, 14)
+    H(2, 4, 4, 4, 13, 0, 14)
+    for a in (0, 7, 14):
+        H(6, 1, 1, 3, a, 8, 131)
+    for a in (128, 129, 130):
+        H(6, 1, 1, 4, a, 0, 131)
+    H(11, 2, 2, 3, 0, 4, 10)
+    H(11, 2, 2, 3, 1, 4, 14)
+    H(11, 2, 2, 4, 8, 0, 10)
+    H(11, 2, 2, 4, 9, 0, 10)
+    if not q:
+        H(5, 0, 0, 0, 0, 0, 100, timeout_ms=300000)
+        H(5, 0, 0, 1, 0, 0, 100, timeout_ms=300000)
+        H(11, 3, 3, 3, 0, 9, 20)
+    return [j for j in jobs if j is not None]
+
+
 PROPS = {
+    'C17': {
+        'jobs': c17_jobs,
+        'technique': 'solver-based relational checking of the real code: two symbolic executions (x and T(x)) of the same go/ssa functions, counts identified by guard pairing, tails compared in reals+UF with the erfc reflection axiom; models replayed natively',
+        'bounds': {'quick': 'complement: monobit (Q->1-Q), runs, block frequency, poker, overlapping, approximate entropy, binary derivative, autocorrelation at n<=12..19, longest run ones<->zeros at n=128,131, cumulative sums n<=8 every excursion; reversal: monobit, runs, overlapping, approximate entropy, binary derivative, autocorrelation, forward<->backward cumulative sums; every rotation at n=8,11 for overlapping and approximate entropy; adjacent whole-block swaps and every discarded-tail bit for block frequency, poker, longest run, rank (2x2), linear complexity (m=3,4)',
+                   'thorough': 'the same families up to n=24 (cumulative n<=14), runs distribution under complement and reversal at n=100, rank 3x3'},
+        'outside': 'Maurer and DFT symmetries; n above the bounds; non-adjacent block permutations are covered as products of adjacent swaps (argument); binary64 rounding (counts are proven equal, tails compared as exact reals)',
+        'assumptions': ['erfc(-v) = 2 - erfc(v), erf(-v) = -erf(v) (axioms of the uninterpreted functions)', 'igamc/log uninterpreted'],
+    },
     'C15': {
         'jobs': c15_jobs,
         'bounds': {'quick': 'B2bit/B2Byte complete (one symbolic byte); B2bitArr and ReadGroup for <=4 bytes; byte-oriented monobit and poker (m=2,4,8) vs the bit-oriented code on B2bitArr for <=6 bytes; the other *TestBytes entry points vs Proto(B2bitArr) at 2..3 bytes; registry runners vs explicit calls with the standard defaults, and Round15/Round12 vs the fifteen runners in the standard order, on 1200 symbolic bytes with the heavy callees summarised as uninterpreted functions of their arguments',
